@@ -90,7 +90,13 @@ FoldLines(ls, i0, d0) == FoldL(LAMBDA d, l : ApplyLine(d, l), d0, SubSeq(ls, i0,
 RECURSIVE FoldLinesRef(_, _, _)
 FoldLinesRef(ls, i, d) == IF i > Len(ls) THEN d ELSE FoldLinesRef(ls, i + 1, ApplyLine(d, ls[i]))
 FromBytes(t) == FoldLines(SplitOn(t, NL), 1, EmptyDI)
-Judged(t) == \A l \in RangeOf(SplitOn(t, NL)) : LineClass(l)[1] # "unjudged"
+\* (a name on which the code's reading of the patch rule and the statement's globs differ -
+\* emul-patch-x, where "-patch-" begins inside "emul-" - is not judged either)
+Judged(t) == \A l \in RangeOf(SplitOn(t, NL)) :
+                LET c == LineClass(l) IN
+                /\ c[1] # "unjudged"
+                /\ c[1] = "size" => PatchJudged(c[2])
+                /\ c[1] = "sum" => PatchJudged(c[3])
 
 \* ---- writing ---------------------------------------------------------------------
 SumOut(e, s)  == AlgNames[s[1]] \o <<SP, LPAR>> \o e.name \o <<RPAR, SP, EQ, SP>> \o s[2] \o <<NL>>
